@@ -2606,6 +2606,11 @@ class Engine:
     def call_named(self, name, recv, e, ec):
         if recv is None and name in self.reg.dataclasses and name not in ec.st.env:
             return self.call_dataclass(name, e, ec)
+        fx_ = getattr(ec, "fx", None)
+        here = (fx_.contract.opts.get("opaque_here") or {}) if fx_ is not None and getattr(fx_, "contract", None) is not None else {}
+        if name in here:
+            # this unit deliberately uses LESS than the callee's contract: the callee is unknown code with the given description
+            return self.call_opaque(name, recv, e, ec, here[name])
         c = self.resolve(name, recv)
         if c is not None:
             return self.call_contract(c, recv, e, ec)
